@@ -23,6 +23,9 @@ type placement struct {
 	Stmts   []ast.Node
 	DoOut   bool
 	Observe bool // the last statement's value is the expression's value
+	// Xform (optional): the last statement's value is this function of the expression's value (operands that
+	// are not identity elements make the operand order visible)
+	Xform func(val.Value) val.Value
 }
 
 func nm(s string) ast.Node { return ast.Name{N: s} }
@@ -30,7 +33,7 @@ func nm(s string) ast.Node { return ast.Name{N: s} }
 func c12Placements(e ast.Node, t gen.Ty, r *core.Rng) []placement {
 	var ps []placement
 	add := func(name string, observe bool, doOut bool, stmts ...ast.Node) {
-		ps = append(ps, placement{name, stmts, doOut, observe})
+		ps = append(ps, placement{Name: name, Stmts: stmts, DoOut: doOut, Observe: observe})
 	}
 	fn := func(body ast.Node) ast.Node { return ast.FuncLit{Body: body} }
 	call := func(f string, args ...ast.Node) ast.Node { return ast.Call{Fn: f, Args: args} }
@@ -132,6 +135,32 @@ func c12Placements(e ast.Node, t gen.Ty, r *core.Rng) []placement {
 		nested = []func(ast.Node) ast.Node{func(x ast.Node) ast.Node {
 			return ast.Binary{Op: "+", L: ast.Binary{Op: "+", L: ast.ArrayLit{}, R: ast.ArrayLit{}}, R: x}
 		}}
+	}
+	// operands that are not identity elements: the order of the operands shows in the value
+	switch t.K {
+	case gen.TStr:
+		mark := func(name string, build func(ast.Node) ast.Node, f func(string) string) {
+			ps = append(ps, placement{Name: name, Stmts: []ast.Node{build(e)}, DoOut: true, Observe: true, Xform: func(v val.Value) val.Value { return val.StrV(f(v.S)) }})
+		}
+		mark("literal-left-of", func(x ast.Node) ast.Node { return ast.Binary{Op: "+", L: ast.StrLit{V: "<"}, R: x} }, func(v string) string { return "<" + v })
+		mark("literal-right-of", func(x ast.Node) ast.Node { return ast.Binary{Op: "+", L: x, R: ast.StrLit{V: ">"}} }, func(v string) string { return v + ">" })
+		mark("literal-both-sides-of", func(x ast.Node) ast.Node {
+			return ast.Binary{Op: "+", L: ast.Binary{Op: "+", L: ast.StrLit{V: "<"}, R: x}, R: ast.StrLit{V: ">"}}
+		}, func(v string) string { return "<" + v + ">" })
+		mark("literal-left-of-nested", func(x ast.Node) ast.Node {
+			return ast.Binary{Op: "+", L: ast.StrLit{V: "<"}, R: ast.Binary{Op: "+", L: x, R: ast.StrLit{V: "|"}}}
+		}, func(v string) string { return "<" + v + "|" })
+	case gen.TArr:
+		mark := func(name string, build func(ast.Node) ast.Node, f func([]val.Value) []val.Value) {
+			ps = append(ps, placement{Name: name, Stmts: []ast.Node{build(e)}, DoOut: true, Observe: true, Xform: func(v val.Value) val.Value { return val.ArrV(f(v.A)) }})
+		}
+		one, two := ast.ArrayLit{Elems: []ast.Node{ast.IntLit{V: 71}}}, ast.ArrayLit{Elems: []ast.Node{ast.IntLit{V: 72}}}
+		v1, v2 := val.IntV(71), val.IntV(72)
+		mark("literal-left-of", func(x ast.Node) ast.Node { return ast.Binary{Op: "+", L: one, R: x} }, func(a []val.Value) []val.Value { return append([]val.Value{v1}, a...) })
+		mark("literal-right-of", func(x ast.Node) ast.Node { return ast.Binary{Op: "+", L: x, R: two} }, func(a []val.Value) []val.Value { return append(append([]val.Value{}, a...), v2) })
+		mark("literal-left-of-nested", func(x ast.Node) ast.Node {
+			return ast.Binary{Op: "+", L: one, R: ast.Binary{Op: "+", L: x, R: two}}
+		}, func(a []val.Value) []val.Value { return append(append([]val.Value{v1}, a...), v2) })
 	}
 	for i, w := range nested {
 		add(fmt.Sprintf("right-of-nested-left-%d", i), true, true, w(e))
@@ -267,7 +296,9 @@ func c12Expr(ctx *core.Ctx, idx int) core.Result {
 			bad = fmt.Sprintf("error class %q, plain expression %q", errc, w.Err)
 		case out != w.Out:
 			bad = fmt.Sprintf("output %q, plain expression %q", trunc(out, 200), trunc(w.Out, 200))
-		case w.Err == "" && p.Observe && !val.Same(v, w.Value):
+		case w.Err == "" && p.Observe && p.Xform != nil && !val.Same(v, p.Xform(w.Value)):
+			bad = fmt.Sprintf("value %s, with the plain expression's value it is %s", trunc(val.Debug(v), 200), trunc(val.Debug(p.Xform(w.Value)), 200))
+		case w.Err == "" && p.Observe && p.Xform == nil && !val.Same(v, w.Value):
 			bad = fmt.Sprintf("value %s, plain expression %s", trunc(val.Debug(v), 200), trunc(val.Debug(w.Value), 200))
 		}
 		if bad != "" {
